@@ -182,7 +182,24 @@ def handover_pairing(ctx):
     ctx.check(ok, f'{im.qualname}:input registers at its output', im.node, 'output_module.register_input(self.name, self.deactivate_control)',
               'an input module does not register itself (name + deactivate callback) at the output module', im)
     ac = m.method('frappy.mixins.HasOutputModule', 'activate_control', inherited=False)
-    skip_self = any(isinstance(x, ast.If) and 'self.name' in src(x.test) and '!=' in src(x.test) for x in body_walk(ac.node))
+    # on every path to the deactivation call the fact `name != self.name` holds: the call lies on the true side of a `!=`
+    # test or on the false side of an `==` test (either polarity, early continue included)
+    cfga = CFG(ac.node, m, ac.module)
+    dcalls = [i for c in calls_in(ac.node) if isinstance(c.func, ast.Name) and 'deactivate' in c.func.id for i in cfga.node_of(c)]
+    skip_self = False
+    for t in cfga.nodes:
+        if t.kind != 'test' or not isinstance(t.ast, ast.Compare) or len(t.ast.ops) != 1 or 'self.name' not in src(t.ast):
+            continue
+        on_t = cfga.reach([t.id], labels={'T'}, avoid=[t.id])
+        on_f = cfga.reach([t.id], labels={'F'}, avoid=[t.id])
+        if isinstance(t.ast.ops[0], ast.NotEq):
+            good, bad_ = on_t, on_f
+        elif isinstance(t.ast.ops[0], ast.Eq):
+            good, bad_ = on_f, on_t
+        else:
+            continue
+        if dcalls and all(i in good and i not in bad_ for i in dcalls) and all(cfga.dominates([t.id], i) for i in dcalls):
+            skip_self = True
     ctx.check(skip_self, f'{ac.qualname}:does not deactivate itself', ac.node, '`if name != self.name` guards the deactivation',
               'taking over control deactivates the new controller itself', ac)
 
